@@ -30,6 +30,80 @@ def big_bytes(rng, limit=300000):
     return (block * (n // len(block) + 1))[:n]
 
 
+# ---- run properties the converter has no use for ------------------------------------------------------------------
+# CT_RPr holds some forty properties; the converter reads ten of them (w:rStyle, w:b, w:i, w:u, w:strike, w:caps, w:smallCaps,
+# w:vertAlign, w:highlight, w:rFonts / w:sz for the document model).  The others are nothing to the output - in particular the
+# ON/OFF properties that look like the ones that are read: the complex-script twins w:bCs / w:iCs (Word writes them next to
+# w:b / w:i, with a DIFFERENT value when only the Latin or only the complex-script half of the font dialog was changed),
+# w:dstrike next to w:strike, w:vanish, w:emboss ...
+RPR_ONOFF_NOISE = ["w:bCs", "w:iCs", "w:dstrike", "w:outline", "w:shadow", "w:emboss", "w:imprint", "w:noProof", "w:snapToGrid", "w:vanish", "w:webHidden",
+                   "w:rtl", "w:cs", "w:specVanish", "w:oMath"]
+RPR_TWINS = {"w:b": ["w:bCs"], "w:i": ["w:iCs"], "w:strike": ["w:dstrike"], "w:caps": ["w:vanish", "w:outline"], "w:smallCaps": ["w:webHidden", "w:shadow"],
+             "w:sz": ["w:szCs"], "w:highlight": ["w:shd", "w:color"], "w:u": ["w:em", "w:effect"], "w:vertAlign": ["w:position"]}
+ONOFF_SPELLINGS = ["bare", "true", "1", "on", "false", "0", "off"]
+
+
+def onoff_is_on(sp):
+    """independent reading of an ON/OFF spelling as the converter treats it: only the values false and 0 switch off"""
+    return sp not in ("false", "0")
+
+
+def rpr_noise(rng, present=(), rich=0.5):
+    """children of a w:rPr that mean nothing to the converter, chosen with an eye on the children that DO mean something
+    (`present` = [(tag, w:val or None)] of the meaningful children of this w:rPr): for a present w:b / w:i / w:strike ... its
+    ignorable twin, preferably with the OPPOSITE on/off value; for an absent one, its twin switched on; plus unrelated
+    on/off and valued properties, and a w:rPrChange that holds a whole former w:rPr (w:b, w:i ... one level further down
+    are history, not formatting).  The caller decides the order among the siblings."""
+    out = []
+    have = dict(present)
+
+    def onoff(tag, want_on=None):
+        if want_on is None:
+            sp = rng.choice(ONOFF_SPELLINGS)
+        elif want_on:
+            sp = rng.choice(["bare", "bare", "true", "1", "on"])
+        else:
+            sp = rng.choice(["false", "0", "0", "off"])
+        return el(tag, [] if sp == "bare" else [("w:val", sp)])
+    for tag in ("w:b", "w:i", "w:strike", "w:caps", "w:smallCaps"):
+        if rng.random() >= rich:
+            continue
+        twin = rng.choice(RPR_TWINS[tag])
+        if any(e[0] == twin for e in out) or twin in have:
+            continue
+        if tag in have:
+            v = have[tag]
+            is_on = v is None or onoff_is_on(v)
+            out.append(onoff(twin, (not is_on) if rng.random() < 0.8 else is_on))
+        else:
+            out.append(onoff(twin, True if rng.random() < 0.8 else None))
+    for _ in range(rng.choice([0, 0, 1, 1, 2, 3])):
+        tag = rng.choice(RPR_ONOFF_NOISE)
+        if not any(e[0] == tag for e in out) and tag not in have:
+            out.append(onoff(tag))
+    valued = [("w:szCs", [("w:val", rng.choice(["24", "20", "x"]))]), ("w:color", [("w:val", rng.choice(["FF0000", "auto"]))]), ("w:lang", [("w:val", "en-GB"), ("w:bidi", "ar-SA")]),
+              ("w:kern", [("w:val", "32")]), ("w:spacing", [("w:val", "-10")]), ("w:w", [("w:val", "90")]), ("w:position", [("w:val", "6")]),
+              ("w:effect", [("w:val", rng.choice(["none", "blinkBackground"]))]), ("w:em", [("w:val", rng.choice(["none", "dot"]))]),
+              ("w:shd", [("w:val", "clear"), ("w:color", "auto"), ("w:fill", rng.choice(["FFFF00", "yellow"]))]), ("w:bdr", [("w:val", "single"), ("w:sz", "4")]),
+              ("w:fitText", [("w:val", "100")]), ("w:eastAsianLayout", [("w:id", "1"), ("w:combine", "1")])]
+    for _ in range(rng.choice([0, 0, 1, 2])):
+        tag, attrs = rng.choice(valued)
+        if not any(e[0] == tag for e in out) and tag not in have:
+            out.append(el(tag, attrs))
+    if rng.random() < 0.25 * rich * 2:
+        old = [onoff(t) for t in ("w:b", "w:i", "w:strike", "w:caps", "w:smallCaps") if rng.random() < 0.5]
+        if rng.random() < 0.4:
+            old.append(el("w:u", [("w:val", rng.choice(["single", "none"]))]))
+        if rng.random() < 0.3:
+            old.append(el("w:highlight", [("w:val", "yellow")]))
+        if rng.random() < 0.3:
+            old.append(el("w:vertAlign", [("w:val", "superscript")]))
+        if rng.random() < 0.3:
+            old.append(el("w:rStyle", [("w:val", "Strong")]))
+        out.append(el("w:rPrChange", [("w:id", "7"), ("w:author", "a")], [el("w:rPr", [], old)]))
+    return out
+
+
 class Profile(dict):
     """feature weights; missing keys default to the general profile"""
     DEFAULT = dict(
@@ -159,6 +233,12 @@ class DocGen:
             ch.append(el("w:rFonts", [("w:ascii", "Arial")]))
         if rng.random() < 0.1:
             ch.append(el("w:sz", [("w:val", rng.choice(["24", "x", "11"]))]))
+        if self.pf.get("p_rpr_noise") and rng.random() < self.pf.get("p_rpr_noise"):
+            # opt-in (no random draw otherwise): run properties the converter does not read, twins of the ones it reads first
+            noise = rpr_noise(rng, [(c[0], dict(map(tuple, c[1])).get("w:val")) for c in ch])
+            if noise:
+                ch.extend(noise)
+                self.hit("rpr-noise")
         rng.shuffle(ch)
         return el("w:rPr", [], ch)
 
@@ -607,6 +687,10 @@ class DocGen:
             ch = [el("w:numId", [("w:val", "1")])]
         else:
             ch = [el("w:ilvl", [("w:val", "0")])]
+        if kind < 0.7 and self.pf.get("numid_pool"):
+            # optional profile key (no draw without it): which definitions list paragraphs refer to, e.g. biased towards the
+            # one defined through a numbering STYLE, whose meaning lives in another part
+            ch[1][1][0][1] = rng.choice(self.pf["numid_pool"])
         rng.shuffle(ch)
         self.hit("numpr")
         return el("w:numPr", [], ch)
@@ -802,6 +886,10 @@ class DocGen:
                 ch.append(el("w:style", [("w:type", kind), ("w:styleId", sid)], sub))
         # a numbering style (for numStyleLink), an untyped style and a style without id: all schema-valid
         ch.append(el("w:style", [("w:type", "numbering"), ("w:styleId", "ListNum")], [el("w:pPr", [], [el("w:numPr", [], [el("w:numId", [("w:val", "1")])])])]))
+        if self.pf.get("numstyle_numids"):
+            # optional profile key (no draw without it): the list the numbering style stands for varies between documents,
+            # so that what a w:numStyleLink of numbering.xml means depends on styles.xml
+            ch[-1][2][0][2][0][2][0][1][0][1] = rng.choice(self.pf["numstyle_numids"])
         if rng.random() < 0.3:
             ch.append(el("w:style", [("w:styleId", "Untyped")], []))
         if rng.random() < 0.3:
@@ -810,6 +898,13 @@ class DocGen:
             ch.append(el("w:style", [("w:type", "numbering"), ("w:styleId", "ListNoNum")], []))
         ch.append(el("w:docDefaults"))
         rng.shuffle(ch)
+        if self.pf.get("p_optional_children") and rng.random() < self.pf.get("p_optional_children"):
+            # opt-in (no random draw otherwise): the optional children of w:style / w:styles the schema allows (gen_optional)
+            from gen_optional import styles_optional
+            rich = el("w:styles", [], ch)
+            for f in sorted(styles_optional(rng, rich)):
+                self.hit(f)
+            return rich
         return el("w:styles", [], ch)
 
     def numbering_part(self):
@@ -826,12 +921,22 @@ class DocGen:
         abs1 = el("w:abstractNum", [("w:abstractNumId", "1")], [lvl(0, "decimal", "ListParagraph"), lvl(1, "bullet"), lvl(2, "decimal")])
         abs2 = el("w:abstractNum", [("w:abstractNumId", "2")], [el("w:numStyleLink", [("w:val", rng.choice(["ListNum", "ListNum", "NoSuchNumStyle", "ListNoNum"]))])])
         abs3 = el("w:abstractNum", [("w:abstractNumId", "3")], [lvl(i, "bullet") for i in range(6)])
+        if self.pf.get("numlink_pool"):
+            # optional profile key (no draw without it): how often the style-linked definition points at the numbering style
+            abs2[2][0][1][0][1] = rng.choice(self.pf["numlink_pool"])
         ch = [abs0, abs1, abs2, abs3]
         ch += [el("w:num", [("w:numId", "1")], [el("w:abstractNumId", [("w:val", "0")])]),
                el("w:num", [("w:numId", "2")], [el("w:abstractNumId", [("w:val", "1")])]),
                el("w:num", [("w:numId", "3")], [el("w:abstractNumId", [("w:val", "2")])]),
                el("w:num", [("w:numId", "4")], [el("w:abstractNumId", [("w:val", "3")])]),
                el("w:num", [("w:numId", "5")], [el("w:abstractNumId", [("w:val", "77")])])]
+        if self.pf.get("p_optional_children") and rng.random() < self.pf.get("p_optional_children"):
+            # opt-in (no random draw otherwise): optional children of w:numbering / w:abstractNum / w:lvl / w:num / w:lvlOverride
+            from gen_optional import numbering_optional
+            rich = el("w:numbering", [], ch)
+            for f in sorted(numbering_optional(rng, rich)):
+                self.hit(f)
+            ch = rich[2]
         if self.pf.get("p_num_noise") and rng.random() < self.pf.get("p_num_noise"):
             # opt-in (no random draw otherwise): Word's decoration of numbering.xml, level overrides, restarted twins of num 1 and 4
             from gen_numbering import numbering_noise
@@ -914,6 +1019,12 @@ class DocGen:
                           [el("content-types:Override", [("PartName", p_), ("ContentType", c)]) for p_, c in overrides])})
         if rng.random() < 0.3:
             parts.append({"name": "docProps/app.xml", "hex": b"<x/>".hex()})
+        if self.pf.get("p_optional_children") and rng.random() < self.pf.get("p_optional_children"):
+            from gen_optional import rels_optional
+            for part in parts:
+                if part["name"].endswith(".rels") and "xml" in part:
+                    for f in sorted(rels_optional(rng, part["xml"])):
+                        self.hit(f)
         rng.shuffle(parts)
         return parts
 
